@@ -442,6 +442,9 @@ class Ovld:
             if self.linkback:
                 mixin.children.append(self)
         self.mixins += mixins
+        if mixins:
+            # Same as any other change: rebuild if already in use, tell the children
+            self._update()
 
     def _key_error(self, key, possibilities=None):
         typenames = sigstring(key)
